@@ -369,7 +369,7 @@ def pe_image(r, ck=None):
         if r.random() < 0.15:
             rva += salign
     entry_rva = secs[0]["rva"] + (r.randrange(0, secs[0]["rawsize"]) if secs[0]["rawsize"] else 0)
-    stack = r.choice([0, 0x1000, 0x10000, 0x100000 if r.random() < 0.1 else 0x2000])
+    stack = r.choice([0 if r.random() < 0.2 else 0x4000, 0x1000, 0x10000, 0x100000 if r.random() < 0.1 else 0x2000])
     dos = bytearray(0x80)
     dos[:2] = b"MZ"
     struct.pack_into("<I", dos, 0x3c, 0x80)
